@@ -5,6 +5,17 @@
 #include <GeographicLib/DAuxLatitude.hpp>
 #include <GeographicLib/Math.hpp>
 #include <memory>
+#include <iostream>
+#include <string>
+#include <sstream>
+#include <fstream>
+#include <GeographicLib/DMS.hpp>
+#include <GeographicLib/Utility.hpp>
+// the command-line front end (observe_at: tools/RhumbSolve) compiled from the current $GV_REPO/tools/RhumbSolve.cpp into this
+// harness, as harness/C10.cpp / harness/C02.cpp do (tools/props.d/C09.py makes the harness cache key depend on its text)
+namespace tool_rhumbsolve {
+#include "../tools/RhumbSolve.cpp"
+}
 using namespace GeographicLib; using namespace gv;
 typedef long double LD;
 static const double aW = 6378137.0, fW = 1 / 298.257223563;
@@ -374,6 +385,206 @@ static Reg r_dir("rdir", [](const Args& a) {
   }
 });
 
+// ================================================================================================================
+// Deepening round: the whole series path against Model/RhumbSeries.lean (running-error correspondence, Corr/C09Full.lean),
+// every public entry point / overload / accessor, and the RhumbSolve front end
+// ================================================================================================================
+static const unsigned M_ALL_DIR = Rhumb::LATITUDE | Rhumb::LONGITUDE | Rhumb::AREA, M_ALL_INV = Rhumb::DISTANCE | Rhumb::AZIMUTH | Rhumb::AREA;
+static bool eqn(double x, double y) { return x == y || (std::isnan(x) && std::isnan(y)); }
+
+// rh_const a f : Rhumb(a, f, false): _n, _rm, _c2, EllipsoidArea(), _pP[] (model: constructor + AreaCoeffs on the extracted table);
+// oracles: accessors, EllipsoidArea = 4 pi c^2 (authalic radius by closed form in long double), series == exact constants, WGS84() singleton
+static Reg r_rhconst("rh_const", [](const Args& a) {
+  double ea = unhx(a[0]), ef = unhx(a[1]);
+  std::string g = guarded([&] {
+    Rhumb R(ea, ef, false);
+    std::string o = hx(R._n) + " " + hx(R._rm) + " " + hx(R._c2) + " " + hx(R.EllipsoidArea()); for (double p : R._pP) o += " " + hx(p);
+    emit(o);
+    if (int(R._pP.size()) != R._lL || R._lL != Rhumb::Lmax_) bad("rhumb-ctor", "_pP.size() = " + std::to_string(R._pP.size()) + ", _lL = " + std::to_string(R._lL) + ", Lmax_ = " + std::to_string(Rhumb::Lmax_));
+    if (!(R.EquatorialRadius() == ea && R.Flattening() == ef)) bad("rhumb-accessors", "EquatorialRadius()/Flattening() do not return the constructor arguments");
+    const rho::Ell& E = el(ea, ef);
+    LD area = 4 * rho::PI * E.c2; double n = ef / (2 - ef);
+    // series constants: the radius series are cut at n^6: allowance |n|^7 x 8 (coefficients of the tables are < 1)
+    double tr = 64 * EPS + 8 * std::pow(std::fabs(n), 7);
+    if (std::fabs(ef) <= 0.1) {
+      if (!(std::fabs((double)((LD)R.EllipsoidArea() - area)) <= tr * (double)area)) bad("rhumb-ellipsoid-area", "EllipsoidArea() = " + num(R.EllipsoidArea()) + ", 4 pi c^2 = " + num(area));
+      if (!(std::fabs((double)((LD)R._rm - E.Rmu)) <= tr * (double)E.Rmu)) bad("rhumb-rectifying-radius", "_rm = " + num(R._rm) + ", 2Q/pi = " + num(E.Rmu));
+    }
+    Rhumb X(ea, ef, true);
+    if (!(std::fabs((double)((LD)X.EllipsoidArea() - area)) <= 64 * EPS * (double)area)) bad("rhumb-ellipsoid-area", "exact: EllipsoidArea() = " + num(X.EllipsoidArea()) + ", 4 pi c^2 = " + num(area));
+    if (!(std::fabs((double)((LD)X._rm - E.Rmu)) <= 64 * EPS * (double)E.Rmu)) bad("rhumb-rectifying-radius", "exact: _rm = " + num(X._rm) + ", 2Q/pi = " + num(E.Rmu));
+    if (!(X._lL == int(X._pP.size()) && X._lL >= 1)) bad("rhumb-ctor", "exact: _lL = " + std::to_string(X._lL) + " but _pP has " + std::to_string(X._pP.size()) + " entries");
+    if (ea == aW && ef == fW) {
+      const Rhumb& W = Rhumb::WGS84();
+      bool same = W._a == R._a && W._f == R._f && W._n == R._n && W._rm == R._rm && W._c2 == R._c2 && !W._exact && W._pP == R._pP && &W == &Rhumb::WGS84();
+      if (!(W.EquatorialRadius() == Constants::WGS84_a() && W.Flattening() == Constants::WGS84_f() && same)) bad("rhumb-wgs84", "Rhumb::WGS84() is not Rhumb(WGS84_a, WGS84_f, series)");
+    }
+  });
+  if (!g.empty()) emit(g);
+});
+
+// rh_inv a f lat1 lon1 lat2 lon2 : GenInverse (series) end to end; the sincosd values of the latitudes are handed to the model (C16)
+static Reg r_rhinv("rh_inv", [](const Args& a) {
+  double ea = unhx(a[0]), ef = unhx(a[1]), lat1 = unhx(a[2]), lon1 = unhx(a[3]), lat2 = unhx(a[4]), lon2 = unhx(a[5]);
+  const Rhumb& R = rh(ea, ef, false);
+  AuxAngle p1(AuxAngle::degrees(lat1)), p2(AuxAngle::degrees(lat2));
+  std::string op = "rh_inv"; for (int i = 0; i < 6; ++i) op += " " + a[i];
+  current_op() = op + " " + hx(p1.y()) + " " + hx(p1.x()) + " " + hx(p2.y()) + " " + hx(p2.x());
+  double s12 = -999, azi12 = -999, S12 = -999; R.GenInverse(lat1, lon1, lat2, lon2, M_ALL_INV, s12, azi12, S12);
+  emit(hx(s12) + " " + hx(azi12) + " " + hx(S12));
+});
+
+// rh_pos a f lat1 lon1 azi12 s12 unroll : RhumbLine constructor members and GenPosition (series) end to end
+static Reg r_rhpos("rh_pos", [](const Args& a) {
+  double ea = unhx(a[0]), ef = unhx(a[1]), lat1 = unhx(a[2]), lon1 = unhx(a[3]), azi = unhx(a[4]), s12 = unhx(a[5]); bool unroll = a[6] == "1";
+  const Rhumb& R = rh(ea, ef, false);
+  AuxAngle p1(AuxAngle::degrees(lat1)); double sa, ca; Math::sincosd(Math::AngNormalize(azi), sa, ca);
+  std::string op = "rh_pos"; for (int i = 0; i < 7; ++i) op += " " + a[i];
+  current_op() = op + " " + hx(p1.y()) + " " + hx(p1.x()) + " " + hx(sa) + " " + hx(ca);
+  RhumbLine L = R.Line(lat1, lon1, azi);
+  double lat2 = -999, lon2 = -999, S12 = -999; L.GenPosition(s12, M_ALL_DIR | (unroll ? Rhumb::LONG_UNROLL : 0U), lat2, lon2, S12);
+  emit(hx(L._lat1) + " " + hx(L._lon1) + " " + hx(L._azi12) + " " + hx(L._salp) + " " + hx(L._calp) + " " + hx(L._phi1.y()) + " " + hx(L._phi1.x()) + " " + hx(L._mu1) + " " +
+       hx(L._chi1.y()) + " " + hx(L._chi1.x()) + " " + hx(L._psi1) + " " + hx(lat2) + " " + hx(lon2) + " " + hx(S12));
+  if (!(eqn(L.Latitude(), L._lat1) && eqn(L.Longitude(), L._lon1) && eqn(L.Azimuth(), L._azi12) && L.EquatorialRadius() == ea && L.Flattening() == ef))
+    bad("rhumb-line-accessors", "RhumbLine::Latitude/Longitude/Azimuth/EquatorialRadius/Flattening do not return the members");
+  if (std::fabs(lat1) <= 90 && std::isfinite(azi) && !(eqn(L.Latitude(), lat1) && eqn(L.Longitude(), lon1) && std::fabs(L.Azimuth()) <= 180 && std::fabs(std::remainder(L.Azimuth() - azi, 360.0)) <= 0))
+    bad("rhumb-line-accessors", "RhumbLine: Latitude() = " + num(L.Latitude()) + ", Longitude() = " + num(L.Longitude()) + ", Azimuth() = " + num(L.Azimuth()) + " for Line(" + num(lat1) + ", " + num(lon1) + ", " + num(azi) + ")");
+});
+
+// rh_dconv a f auxin auxout lat1 lat2 : DConvert for every ordered pair of auxiliary latitudes on normalized / unnormalized angles;
+// oracle: the divided difference of Convert itself (series) where the quotient is well conditioned in long double
+static Reg r_rhdconv("rh_dconv", [](const Args& a) {
+  double ea = unhx(a[0]), ef = unhx(a[1]); int auxin = std::stoi(a[2]), auxout = std::stoi(a[3]); double y1 = unhx(a[4]), x1 = unhx(a[5]), y2 = unhx(a[6]), x2 = unhx(a[7]);
+  const DAuxLatitude& A = rh(ea, ef, false)._aux;
+  AuxAngle z1(y1, x1), z2(y2, x2);
+  double v = A.DConvert(auxin, auxout, z1, z2); emit(hx(v));
+  if (auxin == auxout) { if (!(v == 1)) bad("dd-convert", "DConvert(aux, aux) = " + num(v) + " (1 expected)"); return; }
+  if (!(std::isfinite(y1) && std::isfinite(x1) && std::isfinite(y2) && std::isfinite(x2))) return;
+  AuxAngle e1(A.Convert(auxin, auxout, z1, false)), e2(A.Convert(auxin, auxout, z2, false));
+  // eta2 - eta1 and zeta2 - zeta1 as angles between the (normalized) points: atan2 of cross and dot products, cancellation-free
+  auto dang = [](const AuxAngle& p, const AuxAngle& q) { AuxAngle P(p.normalized()), Q(q.normalized()); return atan2l((LD)Q.y() * P.x() - (LD)Q.x() * P.y(), (LD)Q.x() * P.x() + (LD)Q.y() * P.y()); };
+  LD dz = dang(z1, z2), de = dang(e1, e2);
+  if (fabsl(dz) < 1e-3L || fabsl(dz) > 3) return;   // the (sin, cos) pairs are rounded: the quotient referees only for well separated angles (the Lean model and the theorem cover the rest)
+  LD ref = de / dz;
+  if (!(std::fabs((double)((LD)v - ref)) <= 64 * EPS / (double)fabsl(dz) * (1 + std::fabs((double)ref)))) bad("dd-convert", "DConvert = " + num(v) + " but (Convert(zeta2) - Convert(zeta1))/(zeta2 - zeta1) = " + num(ref));
+});
+
+// rh_msx a f lat1 lat2 : MeanSinXi (series) on chi_i = Convert(phi -> chi, degrees(lat_i))
+static Reg r_rhmsx("rh_msx", [](const Args& a) {
+  double ea = unhx(a[0]), ef = unhx(a[1]), lat1 = unhx(a[2]), lat2 = unhx(a[3]);
+  const Rhumb& R = rh(ea, ef, false);
+  AuxAngle k1(R._aux.Convert(AuxLatitude::PHI, AuxLatitude::CHI, AuxAngle::degrees(lat1), false)), k2(R._aux.Convert(AuxLatitude::PHI, AuxLatitude::CHI, AuxAngle::degrees(lat2), false));
+  current_op() = "rh_msx " + a[0] + " " + a[1] + " " + hx(k1.y()) + " " + hx(k1.x()) + " " + hx(k2.y()) + " " + hx(k2.x());
+  emit(hx(R.MeanSinXi(k1, k2)));
+});
+
+// rh_api a f exact lat1 lon1 lat2 lon2 azi s12 : every overload and every output mask of both solvers and of the line object:
+// a subset mask writes exactly the requested outputs (the others keep their sentinel) with the values of the full call
+static Reg r_rhapi("rh_api", [](const Args& a) {
+  double ea = unhx(a[0]), ef = unhx(a[1]); bool exact = a[2] == "1"; double lat1 = unhx(a[3]), lon1 = unhx(a[4]), lat2 = unhx(a[5]), lon2 = unhx(a[6]), azi = unhx(a[7]), s12 = unhx(a[8]);
+  const Rhumb& R = rh(ea, ef, exact);
+  const double Z = -987654.25; int nbad = 0; std::string first;
+  auto fail = [&](const std::string& w) { if (!nbad++) first = w; };
+  { // inverse
+    double s, z, S; R.GenInverse(lat1, lon1, lat2, lon2, M_ALL_INV, s, z, S);
+    double s1, z1, S1; R.Inverse(lat1, lon1, lat2, lon2, s1, z1, S1); if (!(eqn(s, s1) && eqn(z, z1) && eqn(S, S1))) fail("Inverse(7) != GenInverse(DISTANCE|AZIMUTH|AREA)");
+    double s2, z2; R.Inverse(lat1, lon1, lat2, lon2, s2, z2); if (!(eqn(s, s2) && eqn(z, z2))) fail("Inverse(6) != GenInverse");
+    { double q1, q2, q3, q4, q5; double s3 = Z, z3 = Z, S3 = Z; R.GenInverse(lat1, lon1, lat2, lon2, M_ALL_INV, s3, z3, q1, q2, q3, q4, S3); (void)q5;
+      if (!(eqn(s, s3) && eqn(z, z3) && eqn(S, S3))) fail("GenInverse (PolygonArea interface) != GenInverse"); }
+    for (unsigned m = 0; m < 8; ++m) {
+      unsigned mask = (m & 1 ? Rhumb::DISTANCE : 0U) | (m & 2 ? Rhumb::AZIMUTH : 0U) | (m & 4 ? Rhumb::AREA : 0U) | (m == 3 ? Rhumb::LATITUDE | Rhumb::LONGITUDE : 0U);
+      double s4 = Z, z4 = Z, S4 = Z; R.GenInverse(lat1, lon1, lat2, lon2, mask, s4, z4, S4);
+      if (!(eqn(s4, m & 1 ? s : Z) && eqn(z4, m & 2 ? z : Z) && eqn(S4, m & 4 ? S : Z))) fail("GenInverse with outmask " + std::to_string(mask) + " writes other values than the full call / other outputs");
+    }
+    { double s5 = Z, z5 = Z, S5 = Z; R.GenInverse(lat1, lon1, lat2, lon2, Rhumb::ALL, s5, z5, S5); if (!(eqn(s, s5) && eqn(z, z5) && eqn(S, S5))) fail("GenInverse(ALL) != GenInverse(DISTANCE|AZIMUTH|AREA)"); }
+  }
+  { // direct and line
+    RhumbLine L = R.Line(lat1, lon1, azi); RhumbLine L2(L); RhumbLine L3(R, lat1, lon1, azi);
+    for (int u = 0; u < 2; ++u) {
+      unsigned U = u ? Rhumb::LONG_UNROLL : 0U;
+      double la, lo, S; R.GenDirect(lat1, lon1, azi, s12, M_ALL_DIR | U, la, lo, S);
+      if (!u) {
+        double la1, lo1, S1; R.Direct(lat1, lon1, azi, s12, la1, lo1, S1); if (!(eqn(la, la1) && eqn(lo, lo1) && eqn(S, S1))) fail("Direct(7) != GenDirect(LATITUDE|LONGITUDE|AREA)");
+        double la2, lo2; R.Direct(lat1, lon1, azi, s12, la2, lo2); if (!(eqn(la, la2) && eqn(lo, lo2))) fail("Direct(6) != GenDirect");
+        double la3, lo3, S3; L.Position(s12, la3, lo3, S3); if (!(eqn(la, la3) && eqn(lo, lo3) && eqn(S, S3))) fail("RhumbLine::Position(4) != Direct");
+        double la4, lo4; L.Position(s12, la4, lo4); if (!(eqn(la, la4) && eqn(lo, lo4))) fail("RhumbLine::Position(3) != Direct");
+        double la5 = Z, lo5 = Z, S5 = Z, q1, q2, q3, q4, q5; R.GenDirect(lat1, lon1, azi, false, s12, M_ALL_DIR, la5, lo5, q1, q2, q3, q4, q5, S5);
+        if (!(eqn(la, la5) && eqn(lo, lo5) && eqn(S, S5))) fail("GenDirect (PolygonArea interface) != GenDirect");
+      }
+      for (const RhumbLine* l : {&L, &L2, &L3}) { double la6, lo6, S6; l->GenPosition(s12, M_ALL_DIR | U, la6, lo6, S6); if (!(eqn(la, la6) && eqn(lo, lo6) && eqn(S, S6))) fail("RhumbLine (Line(), copy, constructor)::GenPosition != GenDirect"); }
+      { double la7 = Z, lo7 = Z, S7 = Z; R.GenDirect(lat1, lon1, azi, s12, Rhumb::ALL | U, la7, lo7, S7); if (!(eqn(la, la7) && eqn(lo, lo7) && eqn(S, S7))) fail("GenDirect(ALL) != GenDirect(LATITUDE|LONGITUDE|AREA)"); }
+      for (unsigned m = 0; m < 8; ++m) {
+        unsigned mask = (m & 1 ? Rhumb::LATITUDE : 0U) | (m & 2 ? Rhumb::LONGITUDE : 0U) | (m & 4 ? Rhumb::AREA : 0U) | (m == 5 ? Rhumb::DISTANCE | Rhumb::AZIMUTH : 0U) | U;
+        double la8 = Z, lo8 = Z, S8 = Z; R.GenDirect(lat1, lon1, azi, s12, mask, la8, lo8, S8);
+        double la9 = Z, lo9 = Z, S9 = Z; L.GenPosition(s12, mask, la9, lo9, S9);
+        if (!(eqn(la8, m & 1 ? la : Z) && eqn(lo8, m & 2 ? lo : Z) && eqn(S8, m & 4 ? S : Z))) fail("GenDirect with outmask " + std::to_string(mask) + " writes other values than the full call / other outputs");
+        if (!(eqn(la9, la8) && eqn(lo9, lo8) && eqn(S9, S8))) fail("GenPosition with outmask " + std::to_string(mask) + " != GenDirect");
+      }
+      // LONG_UNROLL: lon2 - lon1 is the longitude swept; without it the same direction reduced to [-180, 180]
+      if (u && std::isfinite(lo) && std::isfinite(lon1)) { double la0, lo0, S0; R.GenDirect(lat1, lon1, azi, s12, M_ALL_DIR, la0, lo0, S0);
+        if (!(std::fabs(lo0) <= 180)) fail("lon2 outside [-180, 180] without LONG_UNROLL");
+        if (!(std::fabs(std::remainder(lo - lo0, 360.0)) <= 4 * ulp(std::fabs(lo) + 360) && eqn(S, S0) && eqn(la, la0))) fail("LONG_UNROLL changes more than the representation of lon2: " + num(lo) + " vs " + num(lo0)); }
+    }
+  }
+  emit(std::to_string(nbad));
+  if (nbad) bad("rhumb-api", std::to_string(nbad) + " interface disagreements, first: " + first);
+});
+
+// ---- tools/RhumbSolve ------------------------------------------------------------------------------------------------
+static int run_rhumbsolve(const std::vector<std::string>& args, const std::string& input, std::string& output) {
+  std::vector<const char*> argv; argv.push_back("RhumbSolve"); for (auto& s : args) argv.push_back(s.c_str());
+  std::istringstream in(input); std::ostringstream out, err;
+  std::streambuf *oi = std::cin.rdbuf(in.rdbuf()), *oo = std::cout.rdbuf(out.rdbuf()), *oe = std::cerr.rdbuf(err.rdbuf()); std::cin.clear();
+  int rc = -99; try { rc = tool_rhumbsolve::main(int(argv.size()), argv.data()); } catch (...) { rc = -98; }
+  std::cin.rdbuf(oi); std::cout.rdbuf(oo); std::cerr.rdbuf(oe); std::cin.clear(); std::cout.clear(); std::cerr.clear();
+  output = out.str(); return rc;
+}
+static std::string g17(double x) { char b[40]; std::snprintf(b, sizeof b, "%.17g", x); return b; }
+static double snap(double x) { return std::ldexp(std::nearbyint(std::ldexp(x, 20)), -20); }   // multiples of 2^-20: written exactly in fixed notation
+static std::string f20(double x) { char b[80]; std::snprintf(b, sizeof b, "%.20f", x); return b; }
+static bool pclose(double printed, double ref, double absres) { return (std::isnan(printed) && std::isnan(ref)) || std::fabs(printed - ref) <= absres + 4 * ulp(ref); }
+// rh_solve variant a f lat1 lon1 lat2 lon2 azi s12 : variant bits: 1 = -E, 2 = -u, 4|8 = mode (0 direct, 4 inverse -i, 8 line -L), 16 = a malformed line in between
+// three input lines (the case, the case again, a second case) => exactly one output line per input line, each the library's answer at -p 10
+static Reg r_rhsolve("rh_solve", [](const Args& a) {
+  int variant = std::atoi(a[0].c_str()); double ea = unhx(a[1]), ef = unhx(a[2]);
+  double lat1 = snap(unhx(a[3])), lon1 = snap(unhx(a[4])), lat2 = snap(unhx(a[5])), lon2 = snap(unhx(a[6])), azi = snap(unhx(a[7])), s12 = snap(unhx(a[8]));
+  bool exact = variant & 1, unroll = variant & 2, inverse = variant & 4, line = variant & 8, junk = variant & 16;
+  std::vector<std::string> args = {"-e", g17(ea), g17(ef), "-p", "10"};
+  if (exact) args.push_back("-E"); if (unroll) args.push_back("-u");
+  if (inverse) args.push_back("-i");
+  if (line) { args.push_back("-L"); args.push_back(f20(lat1)); args.push_back(f20(lon1)); args.push_back(f20(azi)); }
+  struct Case { double lat1, lon1, lat2, lon2, azi, s12; };
+  std::vector<Case> cs = {{lat1, lon1, lat2, lon2, azi, s12}, {lat1, lon1, lat2, lon2, azi, s12}, {line ? lat1 : snap(lat1 / 2), line ? lon1 : snap(lon1 + 10), snap(-lat2), lon2, line ? azi : snap(azi + 45), snap(s12 / 3)}};
+  std::string input; std::vector<int> kind;   // kind: index into cs, or -1 for the malformed line
+  for (size_t i = 0; i < cs.size(); ++i) {
+    const Case& c = cs[i];
+    if (junk && i == 1) { input += (inverse ? "1 2 3\n" : line ? "1 2\n" : "10 20 30 40 50\n"); kind.push_back(-1); }
+    input += line ? f20(c.s12) + "\n" : inverse ? f20(c.lat1) + " " + f20(c.lon1) + " " + f20(c.lat2) + " " + f20(c.lon2) + "\n" : f20(c.lat1) + " " + f20(c.lon1) + " " + f20(c.azi) + " " + f20(c.s12) + "\n";
+    kind.push_back(int(i));
+  }
+  std::string out; int rc = run_rhumbsolve(args, input, out);
+  const Rhumb& R = rh(ea, ef, exact);
+  std::vector<std::string> lines; { std::istringstream is(out); std::string t; while (std::getline(is, t)) lines.push_back(t); }
+  emit(std::to_string(rc) + " " + std::to_string(lines.size()));
+  if (rc != (junk ? 1 : 0)) { bad("rhumbsolve-status", "RhumbSolve exits with " + std::to_string(rc) + (junk ? " although a line was malformed: " : " on valid lines: ") + out.substr(0, 80)); return; }
+  if (lines.size() != kind.size()) { bad("rhumbsolve-lines", "RhumbSolve prints " + std::to_string(lines.size()) + " lines for " + std::to_string(kind.size()) + " input lines"); return; }
+  for (size_t i = 0; i < lines.size(); ++i) {
+    if (kind[i] < 0) { if (lines[i].compare(0, 6, "ERROR:") != 0) bad("rhumbsolve-lines", "malformed input line " + std::to_string(i) + " is answered by: " + lines[i].substr(0, 80)); continue; }
+    const Case& c = cs[kind[i]];
+    std::vector<double> v; { std::istringstream is(lines[i]); std::string t; while (is >> t) { try { v.push_back(Utility::val<double>(t)); } catch (...) { v.push_back(-7e77); } } }
+    if (v.size() != 3) { bad("rhumbsolve-fields", "RhumbSolve prints " + std::to_string(v.size()) + " fields: " + lines[i].substr(0, 120)); continue; }
+    if (inverse) {
+      double s, z, S; R.Inverse(c.lat1, c.lon1, c.lat2, c.lon2, s, z, S);
+      if (!(pclose(v[0], z, 1e-15) || std::fabs(std::remainder(v[0] - z, 360.0)) <= 1e-14) || !pclose(v[1], s, 1e-10) || !pclose(v[2], S, 1e-3))
+        bad("rhumbsolve-inverse", "line " + std::to_string(i) + ": RhumbSolve -i prints " + lines[i] + ", the library returns " + g17(z) + " " + g17(s) + " " + g17(S));
+    } else {
+      double la, lo, S; R.GenDirect(c.lat1, c.lon1, c.azi, c.s12, Rhumb::ALL | (unroll ? Rhumb::LONG_UNROLL : 0U), la, lo, S);
+      if (!pclose(v[0], la, 1e-15) || !(pclose(v[1], lo, 1e-15) || (!unroll && std::fabs(std::remainder(v[1] - lo, 360.0)) <= 1e-14)) || !pclose(v[2], S, 1e-3))
+        bad(line ? "rhumbsolve-line" : "rhumbsolve-direct", "line " + std::to_string(i) + ": RhumbSolve prints " + lines[i] + ", the library returns " + g17(la) + " " + g17(lo) + " " + g17(S));
+    }
+  }
+});
+
 // ---- generators -------------------------------------------------------------------------------------------------
 static double pw(Rng& r, int lo, int hi) { return std::pow(10.0, r.range(lo, hi)); }
 void gv::generate(const std::string& tier, uint64_t seed) {
@@ -396,11 +607,13 @@ void gv::generate(const std::string& tier, uint64_t seed) {
     switch (r.irange(0, 5)) { case 0: return r.range(-180, 180); case 1: return r.pick(std::vector<double>{0, 180, -180, 90, 360, 540, -540, 720});
     case 2: return r.range(-1, 1) * pw(r, 3, 15); case 3: return 360.0 * r.irange(-1000, 1000) + r.range(-180, 180); default: return r.range(-180, 180); }
   };
+  for (const EF& e0 : ell) if (e0.modes != 2) { run("rh_const", {H(e0.a), H(e0.f)}); stratum("model-const"); }
+  for (double f0 : {0.0033, -0.0033, 1e-9, 0.006, -0.009}) { run("rh_const", {H(6.4e6 * (1 + f0)), H(f0)}); stratum("model-const"); }
   for (long i = 0; i < n; ++i) {
     EF e = r.pick(ell); bool exact = e.modes == 2 ? true : (e.modes == 1 ? false : r.coin());
     std::string A = H(e.a), F = H(e.f), X = exact ? "1" : "0";
     // ---------- inverse strata
-    { int k = r.irange(0, 9); double lat1, lon1 = lon_gen(), lat2, lon2; std::string sn;
+    { int k = r.irange(0, 11); double lat1, lon1 = lon_gen(), lat2, lon2; std::string sn;
       switch (k) {
       case 0: lat1 = lat_gen(0); lat2 = lat_gen(0); lon2 = lon1 + r.range(-180, 180); sn = "inv-uniform"; break;
       case 1: { lat1 = lat_gen(r.irange(0, 4)); double dm_ = pw(r, -12, 0) * (r.coin() ? 1 : -1); lat2 = lat1 + dm_ / 111e3; if (r.irange(0, 3) == 0) lat2 = r.coin() ? nextup(lat1, r.irange(1, 4)) : nextdn(lat1, r.irange(1, 4));
@@ -412,9 +625,19 @@ void gv::generate(const std::string& tier, uint64_t seed) {
       case 6: lat1 = lat_gen(0); lat2 = lat_gen(0); lon2 = r.coin() ? lon1 : lon1 + (r.coin() ? 1 : -1) * pw(r, -14, -3); sn = "inv-meridional"; break;
       case 7: lat1 = lat_gen(3); lat2 = lat_gen(3); lon2 = lon1 + r.range(-180, 180); sn = "inv-special-lat"; break;
       case 8: lat1 = lat_gen(0); lat2 = -lat1 * (r.coin() ? 1 : 1 + r.range(-1, 1) * 1e-9); lon2 = lon1 + r.range(-180, 180); sn = "inv-opposite-lat"; break;
+      case 10: { double s_ = r.coin() ? 1 : -1; lat1 = s_ * r.range(30, 89.9); lat2 = -s_ * r.range(std::max(1.0, 90.5 - std::fabs(lat1)), 89.9); lon2 = lon1 + r.range(-180, 180);   // opposite hemispheres, |lat1| + |lat2| > 90: tan(chi1) tan(chi2) < -1
+                 sn = "inv-opposite-hemi-sum-gt-90"; break; }
+      case 11: { lat1 = (r.coin() ? 1 : -1) * (r.coin() ? r.range(45, 89.99) : r.range(0, 45)); lat2 = lat1; lon2 = lon1 + (r.coin() ? 1 : -1) * (r.irange(0, 3) ? r.range(0, 180) : 180 * pw(r, -12, 0));   // azi = +-90 exactly, high and low latitude
+                 sn = "inv-parallel-hi-lo"; break; }
       default: lat1 = r.range(-80, 80); lat2 = lat1 + r.range(-1, 1) * pw(r, -9, -1); if (std::fabs(lat2) > 90) lat2 = lat1; lon1 = r.range(-180, 180); lon2 = lon1 + r.range(-1, 1) * pw(r, -9, 0); sn = "inv-short"; break;
       }
       run("rinv", {A, F, X, H(lat1), H(lon1), H(lat2), H(lon2)}); stratum(sn); if (i < 2) sample(current_op());
+      if (e.modes != 2) { run("rh_inv", {A, F, H(lat1), H(lon1), H(lat2), H(lon2)}); stratum("model-" + sn); }
+      if (i % 3 == 0) { run("rh_api", {A, F, X, H(lat1), H(lon1), H(lat2), H(lon2), H(r.range(-180, 180) + 360 * r.irange(-1, 1)), H(r.range(-3e7, 3e7) * e.a / aW)}); stratum("api-" + sn); }
+      if (i % 4 == 1 && std::fabs(lat1) <= 90 && std::fabs(lat2) <= 90 && std::fabs(lon1) < 1e6) {
+        int variant = (exact ? 1 : 0) | (r.coin() ? 2 : 0) | (r.pick(std::vector<int>{0, 4, 8})) | (r.irange(0, 3) == 0 ? 16 : 0);
+        run("rh_solve", {std::to_string(variant), A, F, H(lat1), H(lon1), H(lat2), H(lon1 + r.range(-180, 180)), H(r.range(-180, 180)), H(r.range(-2e7, 2e7) * e.a / aW)}); stratum("rhumbsolve-" + std::to_string(variant & 12)); }
+      if (e.modes != 2 && std::fabs(lat1) <= 90 && std::fabs(lat2) <= 90) { run("rh_msx", {A, F, H(lat1), H(lat2)}); stratum("model-msx"); }
     }
     // ---------- direct strata
     { int k = r.irange(0, 8); double lat1 = lat_gen(r.irange(0, 5)), lon1 = lon_gen(), azi, s12; std::string sn; const rho::Ell& E = el(e.a, e.f); double Q = (double)E.Q;
@@ -432,7 +655,9 @@ void gv::generate(const std::string& tier, uint64_t seed) {
       case 7: azi = (r.coin() ? 90 : -90) + r.range(-1, 1) * 1e-3; s12 = r.range(-1, 1) * 4e7 * r.irange(1, 20) * e.a / aW; sn = "dir-many-circuits-ew"; break;
       default: azi = r.range(-180, 180) + 360 * r.irange(-3, 3); s12 = r.range(-1e7, 1e7) * e.a / aW; sn = "dir-azi-unreduced"; break;
       }
-      run("rdir", {A, F, X, H(lat1), H(lon1), H(azi), H(s12), r.irange(0, 2) ? "1" : "0"}); stratum(sn); if (i < 2) sample(current_op());
+      std::string U = r.irange(0, 2) ? "1" : "0";
+      run("rdir", {A, F, X, H(lat1), H(lon1), H(azi), H(s12), U}); stratum(sn); if (i < 2) sample(current_op());
+      if (e.modes != 2) { run("rh_pos", {A, F, H(lat1), H(lon1), H(azi), H(s12), U}); stratum("model-" + sn); }
     }
     // ---------- divided-difference kernels
     for (int rep = 0; rep < 4; ++rep) {
@@ -447,6 +672,12 @@ void gv::generate(const std::string& tier, uint64_t seed) {
       switch (r.irange(0, 3)) { case 0: z2 = z1; break; case 1: z2 = z1 + r.range(-1, 1) * pw(r, -12, 0); break; case 2: z2 = -z1; break; default: z2 = r.range(-1.6, 1.6); }
       av.push_back(H(z1)); av.push_back(H(z2)); for (int k = 0; k < K; ++k) av.push_back(H(r.range(-1, 1) * std::pow(e.f / (2 - e.f) + 0.3 * r.coin(), k + 1)));
       run("dcl", av); stratum("dcl"); }
+    if (e.modes != 2) { // DConvert: every ordered pair of auxiliary latitudes; equal / ulp apart / nearby / mirrored / independent angles; unnormalized points
+      int auxin = r.irange(0, 5), auxout = r.irange(0, 5); double z1 = lat_gen(r.irange(0, 5)), z2; int k = r.irange(0, 4);
+      switch (k) { case 0: z2 = z1; break; case 1: z2 = z1 + r.range(-1, 1) * pw(r, -13, 0); break; case 2: z2 = r.coin() ? nextup(z1) : nextdn(z1); break; case 3: z2 = -z1 * r.range(0.5, 1.5); break; default: z2 = lat_gen(r.irange(0, 5)); }
+      if (std::fabs(z2) > 90) z2 = z1;
+      AuxAngle p1(AuxAngle::degrees(z1)), p2(AuxAngle::degrees(z2)); double sc1 = r.irange(0, 3) ? 1 : pw(r, -3, 3), sc2 = r.irange(0, 3) ? 1 : pw(r, -3, 3);
+      run("rh_dconv", {A, F, std::to_string(auxin), std::to_string(auxout), H(p1.y() * sc1), H(p1.x() * sc1), H(p2.y() * sc2), H(p2.x() * sc2)}); stratum("model-dconvert-" + std::to_string(k)); }
     { int fn = r.irange(0, 2); double lat1 = lat_gen(r.irange(0, 5)), lat2; int k = r.irange(0, 4);
       switch (k) { case 0: lat2 = lat1; break; case 1: lat2 = lat1 + r.range(-1, 1) * pw(r, -13, 0); break; case 2: lat2 = r.coin() ? nextup(lat1) : nextdn(lat1); break; case 3: lat2 = -lat1 * r.range(0.5, 1.5); break; default: lat2 = lat_gen(r.irange(0, 5)); }
       if (std::fabs(lat2) > 90) lat2 = lat1;
